@@ -89,7 +89,41 @@ pub fn lib<T>(case: u64, what: &str, f: impl FnOnce() -> T) -> Result<T, String>
     IN_LIB.with(|l| *l.borrow_mut() = None);
     match r {
         Ok(v) => Ok(v),
-        Err(_) => Err(take_panic()),
+        Err(_) => {
+            // if the LP hook is armed, the query that was inside the solver when it panicked
+            let q = affinitree::verif::pending_query().map(|(m, b, c)| {
+                serde_json::json!({
+                    "mat": m.outer_iter().map(|r| r.to_vec()).collect::<Vec<_>>(),
+                    "bias": b.to_vec(),
+                    "cost": c.to_vec(),
+                })
+            });
+            PENDING_LP.with(|l| *l.borrow_mut() = q);
+            Err(take_panic())
+        }
+    }
+}
+
+thread_local! {
+    static PENDING_LP: std::cell::RefCell<Option<serde_json::Value>> = std::cell::RefCell::new(None);
+}
+
+/// LP query that was being solved when the last caught panic happened (needs an armed hook)
+pub fn take_pending_lp() -> Option<serde_json::Value> {
+    PENDING_LP.with(|l| l.borrow_mut().take())
+}
+
+/// arms the LP hook without faults or log for the lifetime of the guard (panic diagnostics)
+pub struct HookGuard;
+impl HookGuard {
+    pub fn new() -> HookGuard {
+        affinitree::verif::arm(Default::default(), None, false);
+        HookGuard
+    }
+}
+impl Drop for HookGuard {
+    fn drop(&mut self) {
+        let _ = affinitree::verif::disarm();
     }
 }
 
